@@ -20,6 +20,12 @@ type c18cfg struct {
 	B        int8
 	FromFile bool // only the file sets this: a config without it is the file-less intermediate
 	Bad      bool
+	// a section with a non-nil default: a file version may set a leaf in it and a later one drop it
+	DB *c18db
+}
+
+type c18db struct {
+	Host string
 }
 
 var c18verified []c18cfg
@@ -42,6 +48,7 @@ type c18layer struct {
 	a, b                       int8
 	cfg                        string
 	fromFile                   bool
+	setHost                    bool
 }
 
 func c18fill(t reflect.Type, l c18layer) reflect.Value {
@@ -66,6 +73,13 @@ func c18fill(t reflect.Type, l c18layer) reflect.Value {
 	}
 	if l.fromFile {
 		set("FromFile", true)
+	}
+	if l.setHost {
+		f := out.FieldByName("DB")
+		db := reflect.New(f.Type().Elem())
+		h := "file-host"
+		db.Elem().FieldByName("Host").Set(reflect.ValueOf(&h))
+		f.Set(db)
 	}
 	return out
 }
@@ -151,7 +165,7 @@ func c18run(watch bool) {
 	c18needFile = zzverif.Choose("needfile", 2) == 1
 	fileErr := zzverif.Choose("fileerr", 2) == 1
 
-	def := c18cfg{A: aDef, B: bDef}
+	def := c18cfg{A: aDef, B: bDef, DB: &c18db{Host: "default-host"}}
 	if pathSrc == 1 {
 		def.Cfg = path
 	}
@@ -165,7 +179,7 @@ func c18run(watch bool) {
 	if pathSrc == 3 {
 		fl.setCfg, fl.cfg = true, path
 	}
-	dec := &c18decoder{l: c18layer{setA: aSub&1 != 0, a: aFile, setB: bSub&1 != 0, b: bFile, setBad: badIn == 1, fromFile: true}}
+	dec := &c18decoder{l: c18layer{setA: aSub&1 != 0, a: aFile, setB: bSub&1 != 0, b: bFile, setBad: badIn == 1, fromFile: true, setHost: watch}}
 	if fileErr {
 		dec.err = errC18
 	}
@@ -247,6 +261,11 @@ func c18run(watch bool) {
 	got := d.View()
 	zzverif.Assert(got.A == wantA && got.B == wantB, "C18 the first visible config is not defaults < file < environment < flags")
 	zzverif.Assert(got.FromFile == hasFile, "C18 the file layer is missing from (or wrongly present in) the first visible config")
+	wantHost := "default-host"
+	if hasFile && watch {
+		wantHost = "file-host"
+	}
+	zzverif.Assert(got.DB != nil && got.DB.Host == wantHost, "C18 a leaf inside a section with a non-nil default is not defaults < file")
 	// neither Events nor the global callbacks expose the intermediate config
 	select {
 	case ev := <-d.Events():
@@ -272,6 +291,7 @@ func c18run(watch bool) {
 			wb2 = bFlag
 		}
 		zzverif.Assert(g2.A == wa2 && g2.B == wb2, "C18 a later file change did not re-stack as defaults < file < environment < flags")
+		zzverif.Assert(g2.DB != nil && g2.DB.Host == "default-host", "C18 a leaf that a later file version stopped setting did not fall back to its default")
 		zzverif.Quiesce()
 		zzverif.Assert(nNew == 1, "C18 OnNewConfig did not fire for a file change after the entry point returned")
 	}
